@@ -89,6 +89,8 @@ def ops():
     o['find_matching_nodes'] = (['gid', 'gid2'], lambda c, v: G(c, v).find_matching_nodes(other_graph=c.g(v['gid2'])))
     o['merge_nodes'] = (['gid', 'gid2', 'node'], lambda c, v: G(c, v).merge_nodes(v['node'], c.g(v['gid2'])))
     o['merge_nodes+policy'] = (['gid', 'gid2', 'node'], lambda c, v: G(c, v).merge_nodes(v['node'], c.g(v['gid2']), {'P': 'discard', 'Q': 'overwrite'}))
+    o['merge_nodes+policy1'] = (['gid', 'gid2', 'node'], lambda c, v: G(c, v).merge_nodes(v['node'], c.g(v['gid2']), {'P': 'combine'}))
+    o['merge_nodes+policy0'] = (['gid', 'gid2', 'node'], lambda c, v: G(c, v).merge_nodes(v['node'], c.g(v['gid2']), {}))
     o['get_stitch_nodes'] = (['gid'], lambda c, v: G(c, v).get_stitch_nodes())
     o['check_node_unique'] = (['gid', 'val'], lambda c, v: G(c, v).check_node_unique(label='NetworkNode', name=v['val']))
     o['get_graph_diff'] = (['gid', 'gid2'], lambda c, v: G(c, v).get_graph_diff(c.g(v['gid2']), 'NetworkNode'))
